@@ -107,7 +107,8 @@ def expr_src(e):
     if t == "fault":
         return "(_raise() if d[%d] is True else %s)" % (e[1], expr_src(e[2]))
     if t == "wrongS":
-        return "('bad' if d[%d] is True else %s)" % (e[1], expr_src(e[2]))
+        # a value of the wrong type: a plain str, or (for positive x) a numpy scalar that is not a number
+        return "(_WS[1 if isinstance(d[0], float) and d[0] > 0 else 0] if d[%d] is True else %s)" % (e[1], expr_src(e[2]))
     if t == "wrongN":
         return "(1.5 if d[%d] is True else %s)" % (e[1], expr_src(e[2]))
     raise ValueError(e)
@@ -193,7 +194,8 @@ def mkq(q):
         _QCACHE[key] = out
         return out
     src = "lambda d: " + expr_src(q["e"])
-    f = eval(src, {"_raise": _raise, "float": float})
+    import numpy as _np
+    f = eval(src, {"_raise": _raise, "float": float, "_WS": ("bad", _np.str_("bad"))})
     out = hg.util.named(q["name"], f) if q["name"] is not None else hg.util.serializable(f)
     _QCACHE[key] = out
     return out
@@ -361,6 +363,10 @@ def tree(h, prune=False):
     elif name in ("Index", "Branch"):
         head = [210 if name == "Index" else 211]
         fx = list(d["values"])
+        if name == "Branch" and any(d.get("i%d" % k_) is not v_ for k_, v_ in enumerate(fx[:10])):
+            # a Branch publishes its first ten children a second time, as i0 ... i9: the two handles
+            # are one object (the model has one list); a stale handle is reported as a foreign token
+            head = [2119]
         sp = []
         hasq = False
     else:
@@ -569,13 +575,21 @@ class Machine:
                 return [8]            # not strict JSON (a raw NaN/Infinity in the document)
             return jtok(doc)
         if t == "fromjson":
+            import copy as _copy
+            doc = _copy.deepcopy(op[1])
             try:
-                c = hg.Factory.fromJson(op[1])
+                c = hg.Factory.fromJson(doc)
                 ob = [0] + jtok(c.toJson())
             except Exception as e:  # noqa: BLE001
                 self.exc.append(exc_class(e))
                 p.append(hg.Count())
                 return [1]
+            try:
+                same = (doc == op[1])
+            except Exception:  # noqa: BLE001
+                same = False
+            if not same:
+                ob = [3] + ob[1:]          # the reader changed the caller's document (reported as a foreign outcome)
             p.append(c)
             return ob
         if t == "jsonrt":
@@ -700,6 +714,15 @@ class Machine:
                 self.eqlog = {}
             fact = {"ne": ev(a, b, True), "docs_equal": a.toJson() == b.toJson(),
                     "qsig_equal": qsig(a) == qsig(b)}
+            # one tolerance at a time (the other 0): each alone only widens the comparison
+            tols = []
+            for rel_, abs_ in ((op[3], 0.0), (0.0, op[3])):
+                hg.util.relativeTolerance, hg.util.absoluteTolerance = rel_, abs_
+                try:
+                    tols.append(ev(a, b))
+                finally:
+                    hg.util.relativeTolerance = hg.util.absoluteTolerance = 0.0
+            fact["one_tolerance"] = tols
             if op[1] == op[2]:
                 import pickle
                 try:
@@ -805,6 +828,12 @@ def dfhist(m, op):
         return [1]
     rec["entries"] = float(h.entries)
     rec["unmodified"] = bool(df.equals(before))
+    try:
+        import pickle
+        c_ = pickle.loads(pickle.dumps(h))
+        rec["pickles"] = tokens(tree(c_, prune=True)) == tokens(tree(h, prune=True))
+    except Exception as e:  # noqa: BLE001
+        rec["pickles"] = "%s: %s" % (type(e).__name__, str(e)[:100])
     m.pool.append(h)
     return [0] + tokens(tree(h, prune=True))
 
@@ -1043,6 +1072,31 @@ class IdMachine(Machine):
                     f()
                 except Exception:  # noqa: BLE001
                     pass
+            # helper methods that return a new aggregator: it shares no object with any aggregator of
+            # the pool (nor does a look-up insert what it was given)
+            mine = []
+            for h_ in self.pool:
+                idseq(h_, mine)
+            own = {x[1] for x in mine}
+            probe = hg.Count()
+            for nm_, f in (("zero", lambda: a.zero()), ("copy", lambda: a.copy()), ("histogram", lambda: a.histogram()),
+                           ("getOrElse", lambda: a.getOrElse("no such category", probe)),
+                           ("get", lambda: a.get("no such category")), ("mul", lambda: a * 1.0)):
+                try:
+                    res = f()
+                except Exception:  # noqa: BLE001
+                    continue
+                if res is None or res is probe or not hasattr(res, "entries"):
+                    continue
+                theirs = []
+                try:
+                    idseq(res, theirs)
+                except Exception:  # noqa: BLE001
+                    continue
+                if own & {x[1] for x in theirs}:
+                    if not hasattr(self, "purelog"):
+                        self.purelog = []
+                    self.purelog.append("%s() of pool[%d] returned an aggregator that shares objects with the pool" % (nm_, op[1]))
             self.snaps.append([snap(h) for h in self.pool])
             return [9]
         if op[0] == "share":
